@@ -43,7 +43,8 @@ def contracts(tier):
 
 def extra_obligations(tier):
     from pyvc import solve
-    return [solve.custom_result('hierarchical:HSpace[cache-invalidation]', hierarchical.F, 'HSpace.refine / _clear_cache', hierarchical.cache_invalidation_obligations)]
+    return [solve.custom_result('hierarchical:HSpace[cache-invalidation]', hierarchical.F, 'HSpace.refine / _clear_cache', hierarchical.cache_invalidation_obligations),
+            solve.custom_result('hierarchical:refine[max-marked-level]', hierarchical.F, 'HMesh.refine / HSpace.refine', hierarchical.max_level_obligations)]
 
 
 MANIFEST = {
